@@ -118,6 +118,7 @@ func Prebuild() {
 	if prebuild.Version != nilVer {
 		logging.Success("AppArmor version targeted: %.1f", prebuild.Version)
 	}
+	prebuild.VerifTrace("chain", "prepares", prebuild.VerifNames(prepare.Prepares), "builds", prebuild.VerifNames(builder.Builds), "dist", prebuild.Distribution, "family", prebuild.Family, "abi", prebuild.ABI, "version", prebuild.Version)
 	if err := Prepare(); err != nil {
 		logging.Fatal("%s", err.Error())
 	}
@@ -132,6 +133,7 @@ func Prepare() error {
 		if err != nil {
 			return err
 		}
+		prebuild.VerifTrace("prepare", "name", task.Name())
 		if file != "" && task.Name() == "setflags" {
 			continue
 		}
@@ -170,6 +172,7 @@ func Build() error {
 		if err := file.WriteFile([]byte(profile)); err != nil {
 			return err
 		}
+		prebuild.VerifTrace("write", "file", file.String())
 	}
 
 	logging.Success("Build tasks:")
